@@ -2153,23 +2153,29 @@ class PyCdlib:
                     else:
                         if next_entry.get_data_length() > 0:
                             abs_file_data_extent = part_start + next_entry.alloc_descs[0].log_block_num
+                            inode_key = abs_file_data_extent
                         else:
                             abs_file_data_extent = 0
+                            # A zero-length file has no data location, but
+                            # File Identifiers that name the same File Entry
+                            # are still links of each other.  Key those by the
+                            # (negated) location of the File Entry.
+                            inode_key = -abs_file_entry_extent
                         if self.eltorito_boot_catalog is not None and abs_file_data_extent == self.eltorito_boot_catalog.extent_location():
                             self.eltorito_boot_catalog.add_dirrecord(next_entry)
                         else:
-                            if abs_file_data_extent > 0 and abs_file_data_extent in extent_to_inode:
-                                ino = extent_to_inode[abs_file_data_extent]
+                            if inode_key in extent_to_inode:
+                                ino = extent_to_inode[inode_key]
                             else:
                                 ino = inode.Inode()
                                 ino.parse(abs_file_data_extent,
                                           next_entry.get_data_length(),
                                           self._cdfp, self.logical_block_size)
-                                if abs_file_data_extent > 0:
-                                    extent_to_inode[abs_file_data_extent] = ino
+                                extent_to_inode[inode_key] = ino
                                 self.inodes.append(ino)
 
                             ino.linked_records.append((next_entry, False))
+                            ino.num_udf += 1
                             next_entry.inode = ino
 
     def _open_fp(self, fp):
